@@ -99,24 +99,28 @@ Definition step_sparse (i : nat) (v : vals) (xa xb xc : nat) (ql qr qo qm qc : F
   if negb (solved v xa) then
     do d <- getv v qm xb;
     let den := d + ql in
-    if eq_dec den 0 then Err EDivZero i else
     do v1 <- getv v qr xb;
     do v2 <- getv v qo xc;
-    set_once v xa (opp ((v1 + v2 + qc) * inv den))
+    let num := v1 + v2 + qc in
+    (* zero coefficient of the unsolved wire: the gate holds for any value iff the rest vanishes *)
+    if eq_dec den 0 then (if eq_dec num 0 then set_once v xa 0 else Err EDivZero i) else
+    set_once v xa (opp (num * inv den))
   else if negb (solved v xb) then
     do d <- getv v qm xa;
     let den := d + qr in
-    if eq_dec den 0 then Err EDivZero i else
     do v1 <- getv v ql xa;
     do v2 <- getv v qo xc;
-    set_once v xb (opp ((v1 + v2 + qc) * inv den))
+    let num := v1 + v2 + qc in
+    if eq_dec den 0 then (if eq_dec num 0 then set_once v xb 0 else Err EDivZero i) else
+    set_once v xb (opp (num * inv den))
   else if negb (solved v xc) then
     do l <- getv v ql xa;
     do r <- getv v qr xb;
     do m0 <- getv v qm xa;
     do m1 <- getv v 1 xb;
-    if eq_dec qo 0 then Err EDivZero i else
-    set_once v xc (opp ((m0 * m1 + l + r + qc) * inv qo))
+    let num := m0 * m1 + l + r + qc in
+    if eq_dec qo 0 then (if eq_dec num 0 then set_once v xc 0 else Err EDivZero i) else
+    set_once v xc (opp (num * inv qo))
   else check_sparse i v xa xb xc ql qr qo qm qc.
 
 Definition step_mul (v : vals) (xa xb xc : nat) (qm : F) : res vals :=
